@@ -604,7 +604,7 @@ def main(chk: Check):
                      "in this tree): uninstall mode is exercised with offset / only; replace mode covers the offsets")
         cases = load_corpus()
         n_corpus = len(cases)
-        for _ in range(chk.n(240, 2000)):
+        for _ in range(chk.n(160, 2000)):
             cases.append(gen_case(chk.rng, un_off))
         rows, prop_bad, hist = [], [], {}
         t1 = time.time()
